@@ -4,7 +4,7 @@ from ..net import *
 
 ID = "C11"
 LEVEL = "model_checking"
-RULE = ("operations {runW (new WNTRSimulator), runWs (WNTRSimulator object of the previous run reused), runE (EpanetSimulator), reset (reset_initial_values), copy (deepcopy, continue on the "
+RULE = ("operations {runW (new WNTRSimulator), runWs (WNTRSimulator object of the previous run reused), runE (EpanetSimulator), runE20 (EpanetSimulator with version=2.0, at most once per history), reset (reset_initial_values), copy (deepcopy, continue on the "
         "copy), reload (write_json/read_json, continue on the reloaded model)}; ALL histories of length <= 3 (quick) / <= 4 "
         "(thorough) over 19 models carrying: status time controls on a pipe, a pump and a valve; a valve setting control; a pump "
         "speed control; tank-level controls; a leak window; a rule with ELSE; PDD; an initially CLOSED pump and an initially "
@@ -16,7 +16,7 @@ RULE = ("operations {runW (new WNTRSimulator), runWs (WNTRSimulator object of th
 ASSUMPTIONS = ["'fresh' = initial model, after reset_initial_values(), after a JSON reload, or a deepcopy of a fresh model",
                "speed controls are only run with EpanetSimulator-supported semantics; WNTRSimulator refusing them (NotImplementedError) is a documented refusal"]
 
-OPS = ["runW", "runWs", "runE", "reset", "copy", "reload"]      # runWs: WNTRSimulator run on the simulator OBJECT of the previous run
+OPS = ["runW", "runWs", "runE", "runE20", "reset", "copy", "reload"]      # runWs: WNTRSimulator run on the simulator OBJECT of the previous run
 H = 3600
 
 
@@ -154,11 +154,13 @@ def cases(tier):
         ops = OPS + (["edit"] if name in EDITABLE else [])
         for n in range(1, depth + 1):
             for h in itertools.product(ops, repeat=n):
+                if h.count("runE20") > 1 or (h.count("runE20") and h.count("edit")):
+                    continue        # the EPANET 2.0 file format: once per history
                 if h.count("edit") > 1 or (h.count("edit") == 1 and (h[-1] == "edit" or h.count("copy") or h.count("reload") or h.count("runE") > 1)):
                     continue        # one edit per history, judged by the runs that follow it; kept small: no copy / reload next to an edit
                 # histories that never simulate observe nothing new beyond their prefixes: keep those ending in a run,
                 # and every history of full depth (the invariant is evaluated after every step anyway)
-                if h[-1] not in ("runW", "runWs", "runE") and n < depth:
+                if h[-1] not in ("runW", "runWs", "runE", "runE20") and n < depth:
                     continue
                 # runWs needs an earlier WNTRSimulator run on the same model object (no copy / reload in between)
                 bad = False
@@ -221,12 +223,12 @@ def run_w(wn, s, reuse=False):
     return wrap(res, wn, [str(x.message) for x in w])
 
 
-def run_e(wn):
+def run_e(wn, version=2.2):
     import wntr, warnings, os
     with warnings.catch_warnings():
         warnings.simplefilter("ignore")
         sim = wntr.sim.EpanetSimulator(wn)
-        res = sim.run_sim(file_prefix="c11_%d" % os.getpid())
+        res = sim.run_sim(file_prefix="c11_%d" % os.getpid(), version=version)
     return wrap(res, wn, [])
 
 
@@ -299,6 +301,12 @@ def run_case(c):
                 m = tables_equal(r, refE, 1e-6, 1e-5)
                 if m:
                     viol.append({"key": "epanet-run-differs:%s" % tag, "what": "%s: EpanetSimulator result differs from its result on the initial model: %s" % (pre, m)})
+            elif op == "runE20":
+                r = run_e(wn, 2.0)
+                counts["runs"] += 1
+                m = tables_equal(r, run_e(build(s), 2.0), 1e-6, 1e-5)
+                if m:
+                    viol.append({"key": "epanet20-run-differs:%s" % tag, "what": "%s: EpanetSimulator(version=2.0) result differs from its result on the initial model: %s" % (pre, m)})
             elif op == "edit":
                 # ONE definition edit through the public API; from here on the model must behave like one built with the
                 # edited value from scratch (definition, WNTR results on fresh states, EPANET results)
@@ -337,7 +345,7 @@ def run_case(c):
             cls = re.sub(r"\[[^\]]*\]", "[]", r[0])
             viol.append({"key": "definition-changed:%s:%s" % (op, cls), "what": "%s: to_dict differs from the initial dictionary at %s: %r -> %r" % (pre, r[0], r[1], r[2])})
             break
-    nruns = sum(1 for o in c["ops"] if o in ("runW", "runWs", "runE"))
+    nruns = sum(1 for o in c["ops"] if o in ("runW", "runWs", "runE", "runE20"))
     if "edit" in c["ops"]:
         i = c["ops"].index("edit")
         nruns = 2 if any(o.startswith("run") for o in c["ops"][:i]) and any(o.startswith("run") for o in c["ops"][i:]) else 0
